@@ -778,7 +778,7 @@ class Gen:
         if t == I32:
             opts += ['bin', 'bin', 'bin', 'neg', 'aref', 'alen', 'fold', 'get', 'gte']
             if scope.ag is not None:
-                opts = ['aggmax'] * 5 + ['aggfilter'] * 3 + ['agglet'] * 3 + ['bin'] * 4 + ['if', 'let', 'leaf', 'neg']
+                opts = ['aggmax'] * 5 + ['aggfilter'] * 3 + ['agglet'] * 3 + ['bin'] * 4 + ['if', 'let', 'leaf', 'neg'] + ['aggshare'] * 4
             elif self.use_agg:
                 opts += ['sagg'] * 4
         elif t == BOOL:
@@ -796,6 +796,32 @@ class Gen:
         elif t[0] == 'tup':
             opts += ['mk', 'mk']
         o = rng.choice(opts)
+        if o == 'aggshare':
+            # ONE aggregation object used under an AggFilter / AggLet and outside it (or twice under it): its meaning differs per
+            # occurrence, so it must not be lifted across that boundary
+            a = self.expr(I32, Scope(dict(scope.ag), None), d)
+            fa, _, _ = self.merge([a])
+            agg = self.add(['agg', 'Max', a], I32, {}, fa, True)
+            c = self.expr(BOOL, Scope(dict(scope.ag), None), max(d, 1))
+            fc, _, _ = self.merge([c])
+            shape = rng.choice(['filter+outside', 'twice-under-filter', 'two-filters'])
+            if shape == 'twice-under-filter':
+                body = self.add(['bin', rng.choice(['+', '*', '-']), agg, agg], I32, {}, dict(fa), True)
+                fav = dict(fa)
+                fav.update(fc)
+                return self.add(['aggfilter', c, body], I32, {}, fav, True)
+            fav = dict(fa)
+            fav.update(fc)
+            f1 = self.add(['aggfilter', c, agg], I32, {}, fav, True)
+            if shape == 'two-filters':
+                c2 = self.expr(BOOL, Scope(dict(scope.ag), None), max(d, 1))
+                fc2, _, _ = self.merge([c2])
+                fav2 = dict(fa)
+                fav2.update(fc2)
+                other = self.add(['aggfilter', c2, agg], I32, {}, fav2, True)
+            else:
+                other = agg
+            return self.add(['bin', rng.choice(['+', '-', '*']), f1, other], I32, *self.merge([f1, other]))
         if o == 'leaf':
             return self.leaf(t, scope)
         if o == 'if':
